@@ -64,7 +64,7 @@ def hl_step(draw, n, names, partitioned, positional_only=False, depth=None):
     if partitioned and depth is not None and not positional_only:
         # operations whose partitioned implementation decides between "per partition" and "across partitions" by the axis: the
         # outermost axis spelled 0 and -depth, inner axes in both spellings (added after the seeded changes C03-e and C09-e were missed)
-        kinds = kinds + ["pad_none", "pad_none", "reduce_axis", "reduce_axis", "num_axis", "sort_axis", "sort_axis"]
+        kinds = kinds + ["pad_none"] * 3 + ["reduce_axis"] * 3 + ["num_axis"] + ["sort_axis"] * 5
     op = draw(st.sampled_from(kinds))
     b = st.one_of(st.none(), st.integers(-n - 2, n + 2))
     if op == "concat_self_at":
@@ -84,7 +84,7 @@ def hl_step(draw, n, names, partitioned, positional_only=False, depth=None):
         axes = [0, -1] if depth == 1 else [depth - 1, -1]
         fn = draw(st.sampled_from(["sort", "argsort"]))
         if depth == 2 and fn == "sort":
-            axes = axes + [0, -2, -2]     # sorting values (not positions) one level above the leaves has no recorded finding in C06
+            axes = [0, -2, -2, -2, 1, -1]     # sorting values (not positions) one level above the leaves has no recorded finding in C06
         return {"op": op, "fn": fn, "axis": draw(st.sampled_from(axes)), "ascending": draw(st.booleans())}
     if op == "at":
         return {"op": op, "i": draw(st.integers(-n - 1, n))}
